@@ -54,7 +54,7 @@ CHECKS = {
 
  "C04": ("vrt",
    "property-based fuzzing (proptest byte / fault generators, shrinking) of the three decoders with no-panic, over-read, allocation-bound and watchdog oracles",
-   "UperReader and ProtobufReader for every type of the compiled zoo and the DER reader primitives are fed random byte strings (incl. hostile self-delimiting numbers at every bit offset and TLV-shaped DER input with every length form) with a random declared bit length and valid encodings of generated values carrying 1..3 faults (truncate to a bit, flip, insert, delete, overwrite with boundary bytes, duplicate a chunk). Per case: no panic, position <= declared length, same result when all bits beyond the declared length are flipped and bytes appended, peak allocation <= 64 MiB + 64 KiB x input bytes (counting global allocator), no case over 20 s of CPU time (confirmed 3x in isolation). Sampled exploration; coverage-guided libFuzzer targets extend it in the thorough tier.",
+   "UperReader and ProtobufReader for every type of the compiled zoo and the DER reader primitives are fed random byte strings (incl. hostile self-delimiting numbers at every bit offset and TLV-shaped DER input with every length form) with a random declared bit length and valid encodings of generated values carrying 1..3 faults (truncate to a bit, flip, insert, delete, overwrite with boundary bytes, duplicate a chunk). Per case: no panic, position <= declared length, same result when all bits beyond the declared length are flipped and bytes appended, peak allocation <= 64 MiB + 64 KiB x input bytes (counting global allocator), no case over 20 s + 0.1 ms per input octet of CPU time (confirmed 3x in isolation). Sampled exploration; coverage-guided libFuzzer targets extend it in the thorough tier.",
    "A hang is reported as violation only after three isolated confirmations; otherwise exit 2. Allocation bound is the harness's reading of 'bounded'.",
    "5/C04"),
  "C07": ("vfront",
